@@ -71,7 +71,7 @@ Put(f, x, v) == [y \in DOMAIN f \cup {x} |-> IF y = x THEN v ELSE f[y]]
 ToSet(s) == {s[i] : i \in DOMAIN s}
 FlagS(p, cond, why, sig) == IF cond THEN {} ELSE {[p |-> p, at |-> l, trace |-> tid, why |-> why, sig |-> sig]}
 Flag(p, cond, why) == FlagS(p, cond, why, "")
-NoPol == [h |-> 0, mc |-> -1]
+NoPol == [h |-> 0, mc |-> -1, max |-> 0]
 DefaultCfg == [ample |-> FALSE, ref |-> FALSE, coll |-> FALSE, maxCost |-> 0, itemSize |-> 0,
                costFn |-> 0, hashOf |-> <<>>, confOf |-> <<>>, metrics |-> FALSE, cb |-> TRUE]
 
@@ -425,8 +425,10 @@ Step(e) ==
                  runN, exitDue, iterSnap, pendRej, mcOpen, mcN, clrDirty, clrN, lateAdd, polCur>>
 
     [] e.ev = "Added" ->       \* white-box: policy.Add returned (added, number of victims, accounting afterwards)
-         /\ bad' = bad \cup Flag("C03", ~e.added \/ mcOpen # 0 \/ mcN # e.mcb \/ e.used <= e.max, "an admission left the accounted cost above MaxCost")
-                       \cup Flag("C03", ~e.added \/ e.cost <= e.max \/ mcOpen # 0 \/ mcN # e.mcb, "an item larger than MaxCost was admitted")
+         /\ bad' = bad \cup Flag("C03", ~e.added \/ polCur = NoPol \/ polCur.h # e.h \/ polCur.mc # e.mcb \/ e.used <= polCur.max,
+                                 "an admission left the accounted cost above MaxCost")
+                       \cup Flag("C03", ~e.added \/ polCur = NoPol \/ polCur.h # e.h \/ polCur.mc # e.mcb \/ e.cost <= polCur.max,
+                                 "an item larger than MaxCost was admitted")
                        \cup Flag("C09", polCur = NoPol \/ polCur.h # e.h \/ polCur.mc # e.mcb \/ ~polCur.fits \/ (e.added /\ e.nv = 0),
                                  "an item that fits in the remaining capacity was not admitted without eviction")
                        \cup Flag("C09", polCur = NoPol \/ polCur.h # e.h \/ ~e.added \/ ~polCur.lower,
@@ -447,7 +449,7 @@ Step(e) ==
          /\ bad' = bad \cup Flag("C09", pendRej = {}, "an item turned away by the policy was not reported through OnReject")
          /\ pendRej' = {}
          /\ polCur' = [h |-> e.h, has |-> e.has, big |-> e.cost > e.max, fits |-> (~e.has /\ e.cost <= e.max /\ e.max - (e.used + e.cost) >= 0),
-                       lower |-> FALSE, inc |-> e.inc,
+                       lower |-> FALSE, inc |-> e.inc, max |-> e.max,
                        \* MaxCost is read without the policy lock: the record is usable only if no UpdateMaxCost was in
                        \* progress when it was taken (harness counters sampled before the read)
                        mc |-> IF e.mcb = e.mce THEN e.mcb ELSE -1]
